@@ -776,7 +776,9 @@ pub fn parse_duration_to_milliseconds(d: &str) -> i64 {
                 return -1;
             }
         }
-        v.round() as i64
+        // Round up to whole milliseconds (tolerating floating point noise): the event
+        // must not be delivered before the delay has passed.
+        (v - 1e-6).ceil() as i64
     }
 }
 
